@@ -34,3 +34,15 @@ package rest
 //@   requires svr != nil
 //@   ensures implies(ng.timeout > 0, svr.WriteTimeout == 11 * ng.timeout / 10 && svr.ReadTimeout == 4 * ng.timeout / 5)
 //@   ensures implies(ng.timeout <= 0, svr.WriteTimeout == old(svr.WriteTimeout) && svr.ReadTimeout == old(svr.ReadTimeout))
+
+// C09: every route of a group is bound, in order, and the first registration error (invalid method, bad path, duplicate)
+// ends the registration and is returned - a later route's success never hides it
+//@ func (ng *engine) bindFeaturedRoutes
+//@   property C09
+//@   ghost at entry: bound = 0
+//@   ghost at entry: allok = true
+//@   ghost at after bindRoute#0: bound = bound + 1
+//@   ghost at after bindRoute#0: allok = allok && (ret == nil)
+//@   loop 0: invariant bound == idx && allok
+//@   call bindRoute#*: assert arg_router == router
+//@   ensures_local implies(result == nil, allok)
